@@ -54,7 +54,7 @@ def generate(rng, tier):
     case = {"fract": True if not standard else rng.random() < 0.7, "via_save": rng.choice(["path", "file", "save_p1_cif"]),
             "via_load": rng.choice(["path", "file", "load_p1_cif"]),
             "read_script": rng.choice([None, {"chunk": "random", "seed": rng.getrandbits(16)}, {"chunk": "prime"}]),
-            "write_fault": rng.choice([{"enospc_after": rng.randint(0, 1500)}, {"eio_after": rng.randint(0, 1500)}]) if rng.random() < 0.2 else None,
+            "write_fault": rng.choice([{"enospc_after": rng.randint(0, 1500)}, {"eio_after": rng.randint(0, 1500)}, {"enospc_at_close": rng.choice([0.0, 0.5, 1.0])}]) if rng.random() < 0.2 else None,
             "read_fault": rng.random() if rng.random() < 0.2 else None,
             "pathkind": rng.choice(["std", "std", "odd_ext", "pathlib", "dotted"]), "same_handle": rng.random() < 0.3}
     # hand-made text
@@ -415,14 +415,27 @@ def execute(spec, ctx):
     before = replcheck.snapshot(real)
     if case.get("write_fault") is not None:
         # fault configuration: the disk fails after k characters; the error must surface and the object stay untouched
-        fh = fs.writer("/sim/faulty.cif", script=case["write_fault"])
+        wf = case["write_fault"]
+        by_path = "enospc_at_close" in wf or int(list(wf.values())[0]) % 2 == 0     # the library opens (and closes) the file itself
         raised = None
         try:
-            real.save(fh, filetype="cif", use_fract_coords=fract)
+            if by_path:
+                fs.script = dict(fs.script, write=wf)
+                try:
+                    real.save("/sim/faulty.cif", use_fract_coords=fract)
+                finally:
+                    fs.script = dict(fs.script, write={})
+            else:
+                fh = fs.writer("/sim/faulty.cif", script=wf)
+                real.save(fh, filetype="cif", use_fract_coords=fract)
         except OSError as e:
             raised = e
         except Exception as e:
             raise Violation("c15:write-fault-misreported", "an injected write error surfaced as %s: %s" % (type(e).__name__, e), site="save_p1_cif")
+        if by_path and raised is None:
+            hs = [h for h in fs.open_handles if h.path_ == "/sim/faulty.cif" and h.mode_ != "r"]
+            if hs and not hs[-1].closed_:
+                raise Violation("c15:file-left-open", "Atoms.save(path) returned normally but left the file open (%d characters never reached the disk)" % len(hs[-1].pending), site="save_p1_cif")
         fired = fs.stats.get("enospc_fired", 0) + fs.stats.get("eio_fired", 0)
         if fired:
             ctx.count("faults_fired")
